@@ -21,6 +21,7 @@ HARNESS = os.path.join(VERIF, 'harness')
 OUT = os.environ.get('VERIF_OUT', VERIF)      # where evidence/ and replays/ go (overridden when trying patches on a scratch tree)
 GUARD = 'VECTOR_BLF_VERIF'
 NCPU = int(os.environ.get('VERIF_JOBS', '16'))
+COV = os.environ.get('VERIF_COV')            # reach audit (bin/reach): library built with --coverage into this directory
 
 EXIT_OK, EXIT_VIOLATION, EXIT_INCONCLUSIVE = 0, 1, 2
 
@@ -131,15 +132,19 @@ def vbuild(flavour, log=True):
     """Compile /repo's current working tree for one flavour; returns dir containing libblf.a"""
     fl = FLAVOURS[flavour]
     flags = _COMMON + fl['flags']
+    if COV and flavour != 'fuzz':
+        flags = flags + ['--coverage', '-fprofile-update=atomic']
     g = gen_dir()
     key = sha(tree_hash(), fl['cxx'], ' '.join(flags))[:16]
     out = os.path.join(CACHE, 'lib-%s-%s' % (flavour, key))
+    if COV and flavour != 'fuzz':
+        out = os.path.join(COV, 'lib-%s-%s' % (flavour, key))     # .gcno stay here, .gcda are written next to them at run time
     with _Lock(os.path.join(CACHE, 'lib-%s.lock' % flavour)):
         if os.path.exists(os.path.join(out, 'libblf.a')):
             os.utime(out)
             return out
         t0 = time.time()
-        tmp = out + '.tmp'
+        tmp = out if (COV and flavour != 'fuzz') else out + '.tmp'
         shutil.rmtree(tmp, ignore_errors=True)
         os.makedirs(tmp)
         srcs = repo_sources()
@@ -172,9 +177,10 @@ def vbuild(flavour, log=True):
         subprocess.check_call(['ar', 'rcs', os.path.join(tmp, 'libblf.a')] + objs)
         for o in objs:
             os.unlink(o)
-        shutil.rmtree(out, ignore_errors=True)
-        os.rename(tmp, out)
-        _prune('lib-' + flavour, out)
+        if tmp != out:
+            shutil.rmtree(out, ignore_errors=True)
+            os.rename(tmp, out)
+            _prune('lib-' + flavour, out)
         if log:
             sys.stderr.write('[vbuild] %s built in %.1fs -> %s\n' % (flavour, time.time() - t0, out))
     return out
@@ -231,6 +237,9 @@ def _hbuild(name, sources, flavour, extra=(), libs=('-lz',), need_reflect=False,
     srcs = [s if os.path.isabs(s) else os.path.join(HARNESS, s) for s in sources]
     hdrs = sorted(glob.glob(os.path.join(HARNESS, '*.h')))
     flags = _COMMON + fl['flags'] + list(extra)
+    cov = bool(COV) and flavour != 'fuzz'
+    if cov:
+        flags = flags + ['-DVERIF_COV_BUILD']
     if flavour == 'fuzz':
         flags = [f.replace('fuzzer-no-link', 'fuzzer') for f in flags]
     key = sha(lib, refl, file_hash(srcs + hdrs), ' '.join(flags), ' '.join(libs))[:16]
@@ -260,7 +269,7 @@ def _hbuild(name, sources, flavour, extra=(), libs=('-lz',), need_reflect=False,
                 shutil.rmtree(tmp, ignore_errors=True)
                 raise Inconclusive('harness build failed (%s %s): %s' % (name, flavour, o.decode(errors='replace')[-4000:]))
         cmd = [fl['cxx']] + flags + objs + ([os.path.join(lib, 'libblf.a')] if link_blf else []) + list(libs) + \
-              ['-rdynamic', '-ldl', '-o', os.path.join(tmp, name)]
+              ['-rdynamic', '-ldl', '-o', os.path.join(tmp, name)] + (['--coverage'] if cov else [])
         r = subprocess.run(cmd, stdout=subprocess.PIPE, stderr=subprocess.STDOUT)
         if r.returncode != 0:
             shutil.rmtree(tmp, ignore_errors=True)
